@@ -115,7 +115,9 @@ def affix_config(table, case):
     return {"rule": rules}, set(rules)
 
 
-NUMBER_OF_SPACES_FORMS = [">1", "2+", ">=2", 2, 0, ">0"]      # the documented forms: N, >N, >=N, N+
+# the documented forms: N, >N, >=N, N+.  (Not 0 on ALL rules at once: "no blank between two words" is a configuration a
+# user can write but it asks VSG to glue identifiers together; 0 is explored where the rules' own tests use it.)
+NUMBER_OF_SPACES_FORMS = [">1", "2+", ">=2", 2, ">0"]
 
 
 def number_of_spaces_config(table, value):
